@@ -1,6 +1,6 @@
 #!/usr/bin/env python3
 """Boundary values from the source: every integer / char literal of /repo/src/*.rs (outside data.rs and the
-`mod tests` sections) in 0x80..=0x10FFFF, with its two neighbours.  The harness generators add these scalar values
+`mod tests` sections) in 0x01..=0x10FFFF, with its two neighbours.  The harness generators add these scalar values
 (and, below 0x100, bytes) to their class alphabets, so that an off-by-one in a comparison constant is exercised at
 exactly the value where it matters.  Output: one `<hex value> <file>` per line."""
 import os, re, sys
@@ -33,7 +33,7 @@ def main():
             vals.add(int(m.group(1), 16))
         for v in vals:
             for w in (v - 1, v, v + 1):
-                if 0x80 <= w <= 0x10FFFF:
+                if 0x01 <= w <= 0x10FFFF:
                     found.setdefault(w, set()).add(fn)
     for v in sorted(found):
         print("%x %s" % (v, ",".join(sorted(found[v]))))
